@@ -101,6 +101,10 @@ def make_case(rng, entry, maxn=60):
         gr, _ = data(rng, r, base=REAL[rsp])
         fq, _ = data(rng, q, base=RECIP[qsp])
         cutoff = float(rng.uniform(r[1], max(r[-1] * 0.7, r[2]))) if rng.random() < 0.8 else float(r[int(rng.integers(1, len(r) - 1))])
+        if rng.random() < 0.25 and len(r) > 4:
+            # a hair below / above a grid point: the closed interval [0, cutoff] is exact, no tolerance may pull the point in or out
+            k = int(rng.integers(2, len(r) - 1))
+            cutoff = float(rng.choice([np.nextafter(r[k], 0.0), r[k] * (1 - 2e-6), r[k] * (1 - 1e-9), np.nextafter(r[k], np.inf), r[k] * (1 + 2e-6)]))
         if np.sum(r <= cutoff) < 2:
             cutoff = float(r[2])
         dgr = unc(rng, r)
